@@ -69,6 +69,7 @@ type Property struct {
 	Assumptions []string
 	ReplayTags  string // extra build tags for native replay (e.g. "sqlite")
 	NoReplay    map[string]string // harness -> reason why native replay is not possible
+	Preflight     [][2]string // native tests {test name, package} that must pass before the symbolic runs count (model = real code's output)
 	OnlyMsgPrefix string          // only violations whose message starts with this belong to the property (harnesses shared with another property)
 }
 
@@ -307,6 +308,49 @@ func nativeReplay(prop *Property, rf *replayFile, path string, replace map[strin
 	return lw.has("VERIF-ASSERT-FAILED") || lw.has("panic:"), s
 }
 
+// runNativeTest runs one native Go test of a harness package (overlay build, tags verif + the property's replay tags).
+func runNativeTest(prop *Property, test, pkg string) int {
+	work := filepath.Join(verifDir, ".work", fmt.Sprintf("%s-native-%d", prop.ID, os.Getpid()))
+	if err := os.MkdirAll(work, 0o755); err != nil {
+		fmt.Fprintln(os.Stderr, err)
+		return 2
+	}
+	defer os.RemoveAll(work)
+	_, replace, _, err := buildOverlay(prop.HarnessDirs, work)
+	if err != nil {
+		fmt.Fprintln(os.Stderr, err)
+		return 2
+	}
+	ovPath := filepath.Join(work, "overlay.json")
+	b, _ := json.Marshal(map[string]interface{}{"Replace": replace})
+	os.WriteFile(ovPath, b, 0o644)
+	rel := strings.TrimPrefix(pkg, "github.com/ory/keto")
+	if pdir := filepath.Join(repoDir, rel); !dirExists(pdir) {
+		if err := os.MkdirAll(pdir, 0o755); err == nil {
+			defer os.Remove(pdir)
+		}
+	}
+	tags := "verif"
+	if prop.ReplayTags != "" {
+		tags += " " + prop.ReplayTags
+	}
+	cmd := exec.Command("go", "test", "-tags", tags, "-vet=off", "-count=1", "-timeout", "300s", "-overlay", ovPath, "-run", "^"+test+"$", "."+rel)
+	cmd.Dir = repoDir
+	cmd.Env = append(os.Environ(), "GOFLAGS=-mod=mod", "GOPROXY=off")
+	lw := &limitedWriter{max: 1 << 20}
+	cmd.Stdout, cmd.Stderr = lw, lw
+	err = cmd.Run()
+	for _, l := range strings.Split(lw.String(), "\n") {
+		if !strings.Contains(l, "level=info") {
+			fmt.Println(l)
+		}
+	}
+	if err != nil {
+		return 1
+	}
+	return 0
+}
+
 type evidence struct {
 	PropertyID  string                 `json:"property_id"`
 	Tier        string                 `json:"tier"`
@@ -353,6 +397,7 @@ func main() {
 	var ovr multiFlag
 	fs.Var(&ovr, "override", "dev: from=to")
 	cpuprof := fs.String("cpuprofile", "", "write cpu profile")
+	nativeTest := fs.String("native-test", "", "run this native test of the harness package given by --pkg (overlay build), instead of the check")
 	fs.Parse(os.Args[2:])
 	if *cpuprof != "" {
 		f, _ := os.Create(*cpuprof)
@@ -426,6 +471,10 @@ func main() {
 			fmt.Fprintln(os.Stderr, "unknown property", id)
 			os.Exit(2)
 		}
+	}
+	if *nativeTest != "" {
+		// vcheck <ID> --native-test <TestName> --pkg <import path>: run a native test of a harness package through the overlay
+		os.Exit(runNativeTest(prop, *nativeTest, *pkg))
 	}
 	code := runProperty(prop, *tier, *replay, *workers, *solver, *trace, *only, *noReplay)
 	pprof.StopCPUProfile()
@@ -522,9 +571,21 @@ func runProperty(prop *Property, tier, replayPath string, workers int, solver st
 		nativeReplays                                                               int
 		newViolations                                                               []string
 		knownHit                                                                    = map[string]string{}
+		knownConfirmed                                                              = []string{}
 		allViolations                                                               int
 		otherPropertyEvents                                                         int
 	)
+	if !skipNative && only == "" {
+		for _, pf := range prop.Preflight {
+			t0 := time.Now()
+			if rc := runNativeTest(prop, pf[0], pf[1]); rc != 0 {
+				inconclusive = append(inconclusive, fmt.Sprintf("native pre-flight %s in %s failed: the harness's model of the configuration differs from what the real code produces", pf[0], pf[1]))
+			} else {
+				fmt.Printf("[%s] native pre-flight %s passed (%.1fs)\n", prop.ID, pf[0], time.Since(t0).Seconds())
+			}
+			nativeReplays++
+		}
+	}
 	for _, run := range runs {
 		if only != "" && !strings.Contains(run.Name, only) {
 			continue
@@ -622,6 +683,17 @@ func runProperty(prop *Property, tier, replayPath string, workers int, solver st
 			if kf != nil {
 				if _, seen := knownHit[kf.ID]; !seen {
 					knownHit[kf.ID] = fmt.Sprintf("KNOWN-FINDING: property=%s %s [%s; witness %s]", prop.ID, kf.What, kf.ID, path)
+					// thorough tier: the recorded finding's current witness is confirmed against the real build
+					if _, no := prop.NoReplay[run.Harness]; tier == "thorough" && !skipNative && !no && v.Kind != "race" {
+						ok, log := nativeReplay(prop, rf, path, replace, work)
+						nativeReplays++
+						if ok {
+							knownConfirmed = append(knownConfirmed, kf.ID)
+						} else {
+							inconclusive = append(inconclusive, fmt.Sprintf("%s: witness of recorded finding %s did not reproduce natively (machinery suspect); see %s", run.Name, kf.ID, path))
+							fmt.Println("  native replay of the recorded finding's witness did NOT reproduce:\n" + indent(log))
+						}
+					}
 				}
 				if len(samples) < 12 {
 					samples = append(samples, map[string]interface{}{"run": run.Name, "known_finding": kf.ID, "counterexample_inputs": v.Inputs, "msg": v.Msg, "tag": v.Tag})
@@ -687,6 +759,7 @@ func runProperty(prop *Property, tier, replayPath string, workers int, solver st
 		"exhaustive":                    exhaustive && len(inconclusive) == 0,
 		"inconclusive":                  inconclusive,
 		"known_findings_reported":       kh,
+		"known_findings_confirmed_natively": knownConfirmed,
 		"outside_the_claim":             prop.Outside,
 		"events_belonging_to_other_properties_ignored": otherPropertyEvents,
 		"explanation":                   "bounded symbolic execution of go/ssa lowered from /repo's working tree; states = symbolic paths completed, transitions = solver-decided branches + fork choices",
